@@ -382,3 +382,81 @@ Section Chains.
     rewrite write_read_any by exact H. cbn [bind]. apply chain_rest_any. now apply all_ok_step.
   Qed.
 End Chains.
+
+(* ======================= identifier lower-casing keeps the domain ======================= *)
+Lemma to_lower_cases c : (is_upper c = true /\ is_lower (to_lower c) = true) \/ (is_upper c = false /\ to_lower c = c).
+Proof.
+  unfold to_lower. destruct (is_upper c) eqn:E; [left|right; auto]. split; [reflexivity|].
+  unfold is_upper in E. apply andb_prop in E as [E1 E2]. apply N.leb_le in E1, E2.
+  unfold is_lower. apply andb_true_intro. split; apply N.leb_le; lia.
+Qed.
+
+Lemma name_start_lower c : is_name_start c = true -> is_name_start (to_lower c) = true.
+Proof. destruct (to_lower_cases c) as [[_ H]|[_ ->]]; [|auto]. intros _. unfold is_name_start, is_alpha. now rewrite H, orb_true_r. Qed.
+Lemma name_char_lower c : is_name_char c = true -> is_name_char (to_lower c) = true.
+Proof. destruct (to_lower_cases c) as [[_ H]|[_ ->]]; [|auto]. intros _. unfold is_name_char, is_name_start, is_alpha. now rewrite H, orb_true_r. Qed.
+
+Lemma is_name_lower n : is_name n = true -> is_name (lower n) = true.
+Proof.
+  destruct n as [|c t]; [discriminate|]. cbn [is_name lower map]. intros H. apply andb_prop in H as [H1 H2].
+  rewrite (name_start_lower c H1). cbn [andb]. clear -H2. induction t as [|x t IH]; [reflexivity|]. cbn in *.
+  apply andb_prop in H2 as [Hx H2]. now rewrite (name_char_lower x Hx), IH.
+Qed.
+
+Lemma lower_not_special c : is_lower c = true -> is_space c = false /\ (c =? c_comma) = false /\ (c =? c_rbrace) = false.
+Proof.
+  unfold is_lower. intros H. apply andb_prop in H as [H1 H2]. apply N.leb_le in H1, H2.
+  repeat split.
+  - unfold is_space. repeat (apply orb_false_iff; split); try (apply andb_false_iff); try (apply N.eqb_neq; lia);
+      try (left; apply N.leb_gt; lia); try (right; apply N.leb_gt; lia).
+  - apply N.eqb_neq. unfold c_comma. lia.
+  - apply N.eqb_neq. unfold c_rbrace. lia.
+Qed.
+
+Lemma keyp_lower l : forallb (keyp true) l = true -> forallb (keyp true) (lower l) = true.
+Proof.
+  induction l as [|x l IH]; [reflexivity|]. cbn [forallb lower map]. intros H. apply andb_prop in H as [Hx H].
+  fold (lower l). rewrite IH by exact H. rewrite andb_true_r.
+  destruct (to_lower_cases x) as [[_ Hl]|[_ ->]]; [|exact Hx].
+  destruct (lower_not_special _ Hl) as (A & B & C). unfold keyp. now rewrite A, B, C.
+Qed.
+Lemma is_key_lower k : is_key true k = true -> is_key true (lower k) = true.
+Proof. destruct k as [|c t]; [discriminate|]. unfold is_key. intros H. apply (keyp_lower (c :: t) H). Qed.
+
+Section Lower.
+  Variable enc : str -> str.
+
+  Lemma bib_ok_lower d : bib_ok enc d -> bib_ok enc (map_ids lower d).
+  Proof.
+    intros (W & E & P). split; [now apply map_ids_lower_wf|]. split; [|exact P].
+    cbn [map_ids wd_entries]. rewrite Forall_map. eapply Forall_impl; [|exact E].
+    intros e (Ht & Hk & Hp & Hf). unfold bib_ok_entry. cbn [map_ids_entry we_otype we_key we_persons we_fields].
+    repeat split.
+    - unfold is_entry_type in *. rewrite lower_idem.
+      apply andb_prop in Ht as [Ht H3]. apply andb_prop in Ht as [Ht H2]. apply andb_prop in Ht as [H0 H1].
+      now rewrite (is_name_lower _ H0), H1, H2, H3.
+    - now apply is_key_lower.
+    - now rewrite Hp.
+    - rewrite Forall_map. eapply Forall_impl; [|exact Hf]. intros [k v] (A & B & C & D & F). unfold bib_ok_field. cbn [fst snd] in *.
+      rewrite lower_idem. repeat split; auto. now apply is_name_lower.
+  Qed.
+
+  Lemma all_ok_lower d : all_ok enc d -> all_ok enc (map_ids lower d).
+  Proof. intros [T B]. split; [now apply tree_ok_lower|now apply bib_ok_lower]. Qed.
+
+  Lemma chain_rest_any_pc pc : forall fs d, all_ok enc d -> chain_rest enc fs pc d = Ok (expect_rest fs pc d).
+  Proof.
+    induction fs as [|f r IH]; intros d H; [reflexivity|]. cbn [chain_rest expect_rest].
+    destruct pc.
+    - cbn [bind]. rewrite write_read_any by exact H. cbn [bind]. apply IH. now apply all_ok_step.
+    - destruct H as [T B]. pose proof (proj1 T) as W. rewrite lower_only_case_pf by exact W. cbn [bind].
+      assert (A : all_ok enc (map_ids lower d)) by (apply all_ok_lower; split; assumption).
+      rewrite write_read_any by exact A. cbn [bind]. apply IH. now apply all_ok_step.
+  Qed.
+
+  Lemma chain_roundtrip_pc_pf fs pc d : all_ok enc d -> chain enc fs pc d = Ok (expect fs pc d).
+  Proof.
+    intros H. destruct fs as [|f r]; [reflexivity|]. cbn [chain expect].
+    rewrite write_read_any by exact H. cbn [bind]. apply chain_rest_any_pc. now apply all_ok_step.
+  Qed.
+End Lower.
